@@ -16,6 +16,9 @@ type HdrOp struct {
 	Name   string `json:"name"`
 	Value  string `json:"value"`
 	Append bool   `json:"append"`
+	// Unset: the configuration leaves "append" out; the field's default (append, as in the xDS
+	// HeaderValueOption it is modelled on) applies
+	Unset bool `json:"unset,omitempty"`
 }
 
 type LevelOps struct {
@@ -56,7 +59,14 @@ func drawHdrOps(ch *sim.Choices, level int, resp bool) (add []HdrOp, del []strin
 			continue
 		}
 		used[name] = true
-		add = append(add, HdrOp{Name: name, Value: fmt.Sprintf("v%d%s", level, name[len(name)-1:]), Append: ch.Bool("params", "append")})
+		op := HdrOp{Name: name, Value: fmt.Sprintf("v%d%s", level, name[len(name)-1:])}
+		switch ch.Pick("params", "append", 3) {
+		case 1:
+			op.Append = true
+		case 2:
+			op.Append, op.Unset = true, true
+		}
+		add = append(add, op)
 	}
 	for i, n := 0, ch.Pick("params", "ndel", 3); i < n; i++ {
 		name := pickFrom(ch, "params", "delname", append(pool, "k2", "x-gone"))
@@ -98,7 +108,11 @@ func DrawRouteActs(ch *sim.Choices, proto string) *RouteActs {
 func hdrOpsJSON(ops []HdrOp) []J {
 	var out []J
 	for _, o := range ops {
-		out = append(out, J{"header": J{"key": o.Name, "value": o.Value}, "append": o.Append})
+		j := J{"header": J{"key": o.Name, "value": o.Value}}
+		if !o.Unset {
+			j["append"] = o.Append
+		}
+		out = append(out, j)
 	}
 	return out
 }
@@ -433,7 +447,7 @@ func (w *Proxy) retriable(up *peers.UpRec) (bool, string) {
 		return p.RetryOn, "its connection was terminated but retry_on is off"
 	}
 	switch up.Act.Kind {
-	case "reply", "", "twice", "unknown_id", "stale_id", "reply_close":
+	case "reply", "", "twice", "unknown_id", "stale_id", "reply_close", "reply_connclose":
 		if len(up.Sent) == 0 || w.connReset(up.ConnID) {
 			// its connection died under it (a neighbour's scripted close/reset on a shared
 			// connection) before the reply was sent or could arrive
@@ -556,7 +570,7 @@ func (w *Proxy) connClosedByPeer(id int, self *peers.UpRec) bool {
 				continue
 			}
 			switch up.Act.Kind {
-			case "reset", "close", "half_close", "reply_close", "garbage_reply", "corrupt_reply":
+			case "reset", "close", "half_close", "reply_close", "reply_connclose", "garbage_reply", "corrupt_reply":
 				return true
 			}
 		}
